@@ -216,6 +216,9 @@ func c18(c *an.Check) {
 		mp := one(pkgFuncsWhere(p, "envelope", func(f *ssa.Function) bool { return f.Name() == "matchPrivKeys" }))
 		c.Totality(an.PanicSpec{Construct: "envelope unsealing totality", Funcs: []*ssa.Function{unlock, mp, gcf, kdf}, BCE: bce, Min: 4, Preconds: pre, Reviewed: map[string]string{}})
 	}
+	// the grant decryption chain is part of unsealing: tampered grant ciphertexts reach it
+	peerEncryptTotality(c, "envelope grant decryption chain totality")
+	seenSetScope(c, unlock)
 	// de-duplication key (Recover's precondition)
 	var seenLook []*ssa.Lookup
 	for _, b := range unlock.Blocks {
